@@ -14,6 +14,14 @@ if mode=='sensitivity':
     for e in json.load(open('/verif/sensitivity/index.json')):
         items.append((e['property'], e['name'], '/verif/sensitivity/'+e['patch'], e['expect']))
     out='/verif/sensitivity/results.json'
+elif mode=='benign':
+    # behaviour-preserving refactorings written by sub-agents: every claimed check must stay silent
+    props={'B1':['C15','C12','C17'],'B2':['C17','C12'],'B3':['C16','C07']}
+    for d in sorted(glob.glob('/verif/benign/*/patch.diff')):
+        name=os.path.basename(os.path.dirname(d))
+        for pr in props[name.split('-')[0]]:
+            items.append((pr, name, d, 'silent'))
+    out='/verif/benign/results.json'
 else:
     for m in sorted(glob.glob('/verif/seeded/*/meta.json')):
         e=json.load(open(m)); d=os.path.dirname(m)
@@ -33,7 +41,7 @@ for prop,name,patch,expect in items:
         c=sh(['/verif/check',prop,tier],cwd='/verif',timeout=3600)
         code=c.returncode; lines=[l for l in c.stdout.splitlines() if 'class=' in l or l.startswith('VIOLATION') or l.startswith('OK ') or 'KNOWN' in l]; err=c.stderr[-600:]
     finally:
-        sh(['git','-C','/repo','checkout','--','.'])
+        sh(['git','-C','/repo','checkout','--','.']); sh(['git','-C','/repo','clean','-fdq'])
     outcome={0:'silent',1:'caught',2:'harness-error'}.get(code,'exit-%d'%code)
     ok = (outcome==expect) or (expect=='build-error-ok' and outcome in ('caught','harness-error'))
     results.append({'property':prop,'name':name,'expect':expect,'outcome':outcome,'as_expected':ok,'wall_s':round(time.time()-t,1),
